@@ -1,1 +1,72 @@
-// placeholder
+// K6: checked integer conversions of toml::Value (serializer and visitor) -- included at the
+// end of crates/toml/src/value.rs under cfg(kani)
+mod verif_kani_value {
+    use super::*;
+    use serde::ser::Serializer as _;
+
+    fn stub_format(_args: core::fmt::Arguments<'_>) -> String {
+        String::new()
+    }
+
+    #[kani::proof]
+    #[kani::unwind(8)]
+    #[kani::stub(alloc::fmt::format, stub_format)]
+    fn k6_toml_serialize_u64() {
+        let v: u64 = kani::any();
+        let r = ValueSerializer.serialize_u64(v);
+        match &r {
+            Ok(Value::Integer(x)) => {
+                assert!(v <= i64::MAX as u64, "u64 beyond i64 serialized instead of rejected");
+                assert!(*x == v as i64, "u64 value altered");
+            }
+            Ok(_) => assert!(false, "u64 serialized to a non-integer"),
+            Err(_) => assert!(v > i64::MAX as u64, "u64 within i64 rejected"),
+        }
+        kani::cover!(r.is_ok());
+        kani::cover!(r.is_err());
+        core::mem::forget(r);
+    }
+
+    #[kani::proof]
+    #[kani::unwind(8)]
+    #[kani::stub(alloc::fmt::format, stub_format)]
+    fn k6_toml_visit_u64() {
+        let v: u64 = kani::any();
+        let r: Result<Value, crate::de::Error> =
+            serde::Deserialize::deserialize(serde::de::value::U64Deserializer::new(v));
+        match &r {
+            Ok(Value::Integer(x)) => {
+                assert!(v <= i64::MAX as u64, "u64 beyond i64 accepted by the visitor");
+                assert!(*x == v as i64, "u64 value altered by the visitor");
+            }
+            Ok(_) => assert!(false, "u64 visited to a non-integer"),
+            Err(_) => assert!(v > i64::MAX as u64, "u64 within i64 rejected by the visitor"),
+        }
+        kani::cover!(r.is_ok());
+        kani::cover!(r.is_err());
+        core::mem::forget(r);
+    }
+
+    #[kani::proof]
+    #[kani::unwind(8)]
+    fn k6_toml_narrow() {
+        let a: u32 = kani::any();
+        let r = ValueSerializer.serialize_u32(a);
+        assert!(matches!(&r, Ok(Value::Integer(x)) if *x == a as i64), "u32 altered");
+        core::mem::forget(r);
+        let b: i32 = kani::any();
+        let r = ValueSerializer.serialize_i32(b);
+        assert!(matches!(&r, Ok(Value::Integer(x)) if *x == b as i64), "i32 altered");
+        core::mem::forget(r);
+        let c: i64 = kani::any();
+        let r = ValueSerializer.serialize_i64(c);
+        assert!(matches!(&r, Ok(Value::Integer(x)) if *x == c), "i64 altered");
+        core::mem::forget(r);
+        let d: u32 = kani::any();
+        let r: Result<Value, crate::de::Error> =
+            serde::Deserialize::deserialize(serde::de::value::U32Deserializer::new(d));
+        assert!(matches!(&r, Ok(Value::Integer(x)) if *x == d as i64), "u32 altered by the visitor");
+        kani::cover!(r.is_ok());
+        core::mem::forget(r);
+    }
+}
